@@ -112,7 +112,9 @@ def build(item, chooser_shim=None):
             batt, req = Battery(10.0, 5.0, 7.0), 0.4 + 0.01 * j  # met within one 5-minute period at 32 A
         else:
             batt, req = Battery(100.0, 0.0, 7.0), 60.0
-        ev = EV(a, d, req, "nowhere", "ev%d" % j, batt)
+        # the session's nominal station id is a REGISTERED station for every second session (the network
+        # assigns the real one), an unknown name for the others
+        ev = EV(a, d, req, "S%d" % (j % item["ns"]) if j % 2 == 0 else "nowhere", "ev%d" % j, batt)
         evs.append(ev)
         events.append(PluginEvent(a, ev))
     algo = UncontrolledCharging()
